@@ -136,10 +136,22 @@ fn op_router(case: &Value) -> Value {
                             .collect()
                     })
                     .unwrap_or_default();
+                let status = e.status_code.as_u16();
+                let external = e.external_message.clone();
+                // what the client is sent
+                let resp = e.into_response("replay-request-id");
+                let allow_sent: Vec<String> = resp
+                    .headers()
+                    .get_all(http::header::ALLOW)
+                    .iter()
+                    .map(|v| v.to_str().unwrap_or("?").to_string())
+                    .collect();
                 json!({"err": {
-                    "status": e.status_code.as_u16(),
+                    "status": status,
                     "allow": allow,
-                    "external": e.external_message,
+                    "allow_sent": allow_sent,
+                    "response_status": resp.status().as_u16(),
+                    "external": external,
                 }})
             }
         });
